@@ -71,3 +71,8 @@ pub use sticky::immix::STICKY_IMMIX_CONSTRAINTS;
 
 #[cfg(feature = "mmtk_verif")]
 pub(crate) use barriers::{BarrierSemantics as VerifBarrierSemantics, ObjectBarrier as VerifObjectBarrier};
+
+#[cfg(feature = "mmtk_verif")]
+pub(crate) use concurrent::immix::mutator::{verif_satb_len as verif_concimmix_satb_len, verif_take_satb as verif_concimmix_take_satb};
+#[cfg(feature = "mmtk_verif")]
+pub(crate) use concurrent::immix::ConcurrentImmix as VerifConcurrentImmix;
